@@ -27,7 +27,8 @@ PROPS["C01"] = dict(
     claim="differential testing of servers generated at check time from /repo's templates (several option vectors linked into one "
           "binary) against an independent reference GraphQL executor, over rapid-generated operations (fragments, aliases, "
           "@skip/@include, variables) and outcome plans (value/null/error per resolver and directive invocation). "
-          "Plans may also make any value read from a parent object and any list element absent (nil pointer / interface, zero Time), not only resolver results; and subscriptions are checked event by event: every event's response must equal the reference's execution of the selection on that event's value (data, errors with full response paths, order), with resolver faults below the event",
+          "Plans may also make any value read from a parent object and any list element absent (nil pointer / interface, zero Time), not only resolver results; and subscriptions are checked event by event: every event's response must equal the reference's execution of the selection on that event's value (data, errors with full response paths, order), with resolver faults below the event. "
+          "On the probe with renamed roots the schema also declares executable directives of the user: @fx on FIELD (applied to aliased fields of generated operations; it wraps schema directives and the resolver) and @opx on QUERY | MUTATION (applied to the operation; one that refuses leaves data null with one error without path) - the reference models both",
     note="trusts gqlparser's parser/validator for what a valid operation is, the harness reference executor, and reflection-based "
          "universal resolvers; schemas are the harness probe schemas (one with renamed root types) plus random schemas drawn by the sdlgen grammar for the run seed at preparation time (interfaces implementing interfaces, unions, enums, lists and non-null nesting, field-definition directives with arguments; about a third of the object fields made resolvers), generated and compiled like the probes - a random schema that does not generate or compile is dropped and counted (C17 decides that); the binary is built with -race so that "
          "unsynchronised sharing inside the runtime (e.g. of the parsed document) is reported even when the data happens to be right; sampled",
